@@ -301,6 +301,27 @@ func flistBig(w *workerCtx, s *flistScn, obs *flistObs) (any, error) {
 		}
 		fl.Entries = append(fl.Entries, e)
 	}
+	// the longest names a protocol-27 sender may send: MAXPATHLEN is 4096 including the terminating NUL, so 4095 bytes;
+	// with its neighbours 4093 and 4094 (path-like: a slash every 200 bytes; bytes >= 0x80 in the last component)
+	for _, total := range []int{4093, 4094, 4095} {
+		nb := make([]byte, total)
+		for i := range nb {
+			switch {
+			case i%200 == 199 && i < total-1:
+				nb[i] = '/'
+			case i > total-100:
+				nb[i] = byte(0x80 + (i+total)%0x7f)
+			default:
+				nb[i] = byte('a' + (i+total)%26)
+			}
+		}
+		e := wirekit.Entry{Name: string(nb), Mtime: int32(r.Uint32()), Mode: wirekit.SIFREG | 0o644, Size: int64(total)}
+		r.Read(e.Sum[:])
+		if !seen[e.Name] && filepath.Clean(e.Name) == e.Name {
+			seen[e.Name] = true
+			fl.Entries = append(fl.Entries, e)
+		}
+	}
 	comp := wirekit.FullCompression
 	if s.Seed%3 == 1 {
 		comp = wirekit.NoCompression
